@@ -11,7 +11,8 @@ def check(run, only=None):
                 "importing, failing), each call with its own context map and writer, harness built with the race detector; "
                 "observed: every call's output and error against the same call made alone, and the race detector's reports; "
                 "non-trivial = every call of a run (calls of different content types overlap by construction: goroutines start "
-                "together and interleave templates)")
+                "together and interleave templates); plus gated runs in which a blocking user function holds all 64 (thorough: up to 128) "
+                "callers three includes deep inside Execute at the same moment")
     run.assumptions = ["the race detector observes the memory accesses of the traced run only; user callbacks and loader are race-free",
                        "absence of data races on unmodelled memory is observed, not model-checked"]
     # role 1: the design: with the traversal holding the visitor's lock every interleaving of 3 callers keeps OwnContentType
@@ -27,6 +28,12 @@ def check(run, only=None):
         for i, (n, rounds) in enumerate(shapes):
             for env in ("twig", "core"):
                 cases.append({"id": "C18-%s-%d" % (env, i), "k": "conc", "n": n, "rounds": rounds, "env": env,
+                              "seed": run.seed * 31 + i, "dl": 120000, "fresh": True})
+        # the schedule "every caller is inside Execute at once" (all pc = "print" in C18.tla), forced with a blocking user
+        # function as scheduler gate: 64 callers x 3 nested includes
+        for i, (n, rounds) in enumerate([(64, 4)] if not thorough else [(64, 20), (128, 10), (33, 20)]):
+            for env in ("twig", "core"):
+                cases.append({"id": "C18-gate-%s-%d" % (env, i), "k": "conc", "n": n, "rounds": rounds, "env": env, "gate": True,
                               "seed": run.seed * 31 + i, "dl": 120000, "fresh": True})
     obs, hooks = common.run_pool(cases, deadline_ms=120000, workers=4, race=True)
     run.hooks = hooks
@@ -46,7 +53,7 @@ def check(run, only=None):
         owner.append((c, ob))
         if len(run.samples) < 2:
             e0 = ob["events"][len(ob["events"]) // 2]
-            run.sample({"run": {k: c[k] for k in ("n", "rounds", "env")}, "call": {"g": e0["g"], "tpl": e0["tpl"], "api": e0["api"]},
+            run.sample({"run": {k: c.get(k) for k in ("n", "rounds", "env", "gate")}, "call": {"g": e0["g"], "tpl": e0["tpl"], "api": e0["api"]},
                         "out": common.show(bytes(e0["out"])), "races_reported": ob["races"]})
     rej, n = common.validate_trace("C18_Trace", events, batch=6000)
     run.traces += n
